@@ -274,6 +274,8 @@ class RaggedRun:
         if txt != want:
             a, b = txt.splitlines(), want.splitlines()
             i = next((i for i, (x, y) in enumerate(zip(a, b)) if x != y), min(len(a), len(b)))
+            if getattr(self, 'in_ctx', False):
+                tag = 'append-while-arrays-held-open'
             out.viol('readme-stale', 'ragged:' + tag, f'step {self.stepno}: line {i}: on disk {a[i] if i < len(a) else "<eof>"!r} / regenerated {b[i] if i < len(b) else "<eof>"!r}')
             return False
         f = ragged_readme_fields(txt)
